@@ -7,6 +7,7 @@ package liquid
 
 import (
 	"bytes"
+	"errors"
 	"strings"
 
 	nd "github.com/osteele/liquid/zz_verifnd"
@@ -326,4 +327,29 @@ func VerifC02ConvertError() {
 	out, err := e.ParseAndRenderString("{{ m | mp }}", Bindings{"m": ok})
 	nd.Assert(err == nil && out == "2", "well-typed-map-converts")
 	nd.Reach("C02.converterror")
+}
+
+// VerifC02FailingCallbacks: when a registered filter or a bound struct's method fails or panics, the
+// outcome — whatever it is — carries nothing that differs from run to run: the error text holds no
+// stack trace, goroutine number or address.
+func VerifC02FailingCallbacks() {
+	e := NewEngine()
+	e.RegisterFilter("boom", func(x any) any { panic(errors.New("boom")) })
+	e.RegisterFilter("fail", func(x any) (any, error) { return nil, errors.New("failed") })
+	src := []string{"{{ 1 | boom }}", "{{ 1 | fail }}", "{{ s.Fail }}", "{% if 1 | boom %}x{% endif %}"}[nd.Choice(4)]
+	var err error
+	panicked := false
+	func() {
+		defer func() {
+			if recover() != nil {
+				panicked = true
+			}
+		}()
+		_, err = e.ParseAndRenderString(src, Bindings{"s": c01Meth{}})
+	}()
+	nd.Assert(panicked || err != nil, "failing-callback-is-not-a-success")
+	if !panicked && err != nil {
+		nd.Assert(!strings.Contains(err.Error(), "goroutine ") && !strings.Contains(err.Error(), "0x"), "error-text-free-of-stack-and-addresses")
+	}
+	nd.Reach("C02.failingcallbacks")
 }
